@@ -66,8 +66,13 @@ func NewServerTLSConfig(ctx context.Context, certs []tls.Certificate, cquery cty
 					return errors.New("tls: attempt to use non-existing or revoked certificate")
 				}
 
+				// the trust anchor is the certificate the account published on chain, never the
+				// presented one: otherwise any self-made certificate carrying the same common
+				// name and serial number would verify against itself
 				clientCertPool := x509.NewCertPool()
-				clientCertPool.AddCert(cert)
+				if !clientCertPool.AppendCertsFromPEM(resp.Certificates[0].Certificate.Cert) {
+					return errors.New("tls: invalid certificate stored on chain")
+				}
 
 				opts := x509.VerifyOptions{
 					Roots:                     clientCertPool,
